@@ -180,6 +180,29 @@ def run(ctx):
                        "decoder tests %s between header fields %s: %s" % (c[0], sorted(pair), g[1]) if (g and arm_ok)
                        else "decoder decides (rejects, or decodes differently) on a relation (%s) between header fields %s that the encoder does not guarantee%s: records the encoder can produce (e.g. incompressible values whose lz4 output is as long as or longer than the input) would be refused or decoded to different bytes" % (
                            c[0], sorted(pair), "" if not g else " in this compression arm"), dec.loc(b))
+        # ... and on a comparison of a decoded header field with a CONSTANT only where the encoder enforces the same bound
+        # (it enforces none today: key length and value length are bounded by their field widths alone; journal files grow
+        # past their 64 MiB pre-allocation, values up to 2^32 bytes are legal)
+        def from_stream(term):
+            return any(x.k == "call" and (C.PRIM.search(x.a[0]) or x.a[0].endswith("::decode_from") or "from_reader" in x.a[0]) for x in A.walk(term))
+        bounds = []
+        for b, blk in enumerate(dec.blocks):
+            if blk["t"]["k"] != "switch" or blk["cleanup"]:
+                continue
+            c = A.compare_switch(dec, b, og)
+            if not c:
+                continue
+            ls, rs_ = from_stream(c[1]), from_stream(c[2])
+            if ls != rs_:
+                # does one of the two edges build an explicit Err?
+                errb = [x for x in A.reach(dec, list(c[3]) + list(c[4])) if any(st["p"]["l"] == 0 and not st["p"]["p"] and st["rv"]["k"] == "agg" and st["rv"].get("variant") == "Err" for st in dec.blocks[x]["s"])]
+                only_one_side = [x for x in errb if (x in A.reach(dec, list(c[3]))) != (x in A.reach(dec, list(c[4])))]
+                if only_one_side:
+                    bounds.append((b, c))
+        ctx.ob("R-C15.6", dec, "no-decoder-only-bounds", not bounds,
+               "the decoder rejects no record because of a bound on a single header field that the encoder does not enforce" if not bounds
+               else "the decoder rejects records whose header field exceeds a constant (%s %s %s) although the encoder writes such records: a committed record (e.g. a value larger than the bound) is taken for a torn tail, the journal is truncated there and everything after it is lost" % (
+                   A.tstr(bounds[0][1][1])[:50], bounds[0][1][0], A.tstr(bounds[0][1][2])[:50]), dec.loc(bounds[0][0]) if bounds else "")
         ctx.ob("R-C15.6", dec, "header-relations-enumerated", nrel >= 1, "%d header-field relation test(s) found in the decoder, all matched against the encoder's guarantees" % nrel, nontrivial=False)
 
     # ---- R-C15.2 tag tables
